@@ -6,10 +6,22 @@
 # float, channel lists are integer arrays with distinct non-negative entries plus any number of -1.
 import os
 os.environ.setdefault('TQDM_DISABLE', '1')   # iter_waveforms draws a tqdm bar on stderr; output only, no semantics
-import itertools, contextlib, io, warnings
+import itertools, contextlib, io, warnings, tempfile, shutil
 from pathlib import Path
 import numpy as np
-from concrete.common import tempdir
+
+_TMPROOT = '/dev/shm' if (os.path.isdir('/dev/shm') and os.access('/dev/shm', os.W_OK)) else None
+
+
+@contextlib.contextmanager
+def tempdir():
+    """Like concrete.common.tempdir, on the memory file system when there is one (thousands of tiny recordings)."""
+    d = tempfile.mkdtemp(prefix='pvc_', dir=_TMPROOT)
+    try:
+        yield d
+    finally:
+        shutil.rmtree(d, ignore_errors=True)
+
 
 from phylib.io import traces as T
 from phylib.utils import Bunch
@@ -503,6 +515,8 @@ def enumerate_cases(ctx):
     for dur in range(1, D + 1):
         layouts = [('flat', list(c)) for c in _compositions(dur, 3)] + [('array', [dur]), ('npy', [dur]), ('cbin', [dur])]
         for backend, sizes in layouts:
+            if quick and backend == 'npy' and dur < D:
+                continue
             for nsw in NW:
                 for sd in ('int64', 'uint64', 'uint32'):
                     if sd == 'uint32' and (backend != 'flat' or (quick and dur < D)):
@@ -536,7 +550,8 @@ def enumerate_cases(ctx):
                     if sd.startswith('uint') and any(s < nsw // 2 for s in vec):
                         # same chunking question for unsigned samples without the known wrap: window of one sample
                         ctx.run('iter', dict(base, dtype=DTYPES[k % 3], nsw=1))
-                        ctx.run('export', dict(base, dtype='float64', factor=2.5, nsw=1))
+                        if not quick:
+                            ctx.run('export', dict(base, dtype='float64', factor=2.5, nsw=1))
                     # export: float64 recordings carry no known finding, so they get two thirds of the inputs
                     dt = ('float64', 'int16', 'float64', 'float32', 'float64', 'int16')[k % 6]
                     f = FACTORS[(k // 3) % 6]
